@@ -75,7 +75,7 @@ func c16Check(cs c16Case, baseline []hx.Step) (sig, detail, outcome string) {
 			break
 		}
 	}
-	if cs.Kind == 3 {
+	if cs.Kind == 3 || cs.Kind == hx.FaultKindTransientWithData {
 		// transient fault (the reader fails once, then goes on with the data, then fails for good): the
 		// failure must not be swallowed - a fatal error, and before it nothing but fault-free results
 		if f < 0 {
@@ -115,7 +115,7 @@ func init() {
 		ID:    "C16",
 		Level: "fault_enumeration",
 		Rule: "every (schema, input) of the per-format corpus x every fault offset 0..len (including 'instead of EOF') x fault kind " +
-			"{persistent, E1-then-E2, error returned together with the last good bytes, fails once / carries on with the data / fails for good (held to the same standard), and persistent with each of 7 error identities a format reader could take for its own: io.ErrUnexpectedEOF, os.ErrDeadlineExceeded (Timeout() true), *csv.ParseError, *json.SyntaxError, *xml.SyntaxError, io.ErrNoProgress, a message with formatting verbs} x delivery {one chunk, byte-at-a-time}; " +
+			"{persistent, E1-then-E2, error returned together with the last good bytes, fails once (alone, or together with the last good bytes) / carries on with the data / fails for good (held to the same standard), and persistent with each of 7 error identities a format reader could take for its own: io.ErrUnexpectedEOF, os.ErrDeadlineExceeded (Timeout() true), *csv.ParseError, *json.SyntaxError, *xml.SyntaxError, io.ErrNoProgress, a message with formatting verbs} x delivery {one chunk, byte-at-a-time}; " +
 			"a case is distinct by (schema, input, offset, kind, delivery) and its outcome class is (schema, index of the fatal result relative to the fault-free run)",
 		Assumptions: []string{
 			"the fault is injected at the io.Reader handed to NewTransform; faults inside the schema reader are out of scope",
@@ -144,12 +144,12 @@ func init() {
 						}
 					}
 					for at := 0; at <= len(in); at += step {
-						for kind := 0; kind <= 3+len(hx.FaultIdentities); kind++ {
+						for kind := 0; kind <= hx.FaultKindTransientWithData; kind++ {
 							for _, ob := range []bool{false, true} {
 								if ob && len(in) > 1500 && c.Quick() {
 									continue
 								}
-								if ob && kind >= 4 {
+								if ob && kind >= 4 && kind != hx.FaultKindTransientWithData {
 									continue // (error identities: one delivery mode)
 								}
 								idx++
